@@ -60,6 +60,60 @@ namespace c09
             m.load(tail);
         }
     };
+    // the zero-copy view is the LAST member: decoding it leaves the reader exactly at the end of the bytes when the value is
+    // the last one of a stream
+    struct B3
+    {
+        int32_t id = 0;
+        std::string body;
+        void serialize(igris::archive::binary_serializer_basic &m) const
+        {
+            m.dump(id);
+            m.dump(igris::buffer(body.data(), body.size()));
+        }
+        void deserialize(igris::archive::binary_deserializer_basic &m)
+        {
+            m.load(id);
+            igris::buffer b;
+            m.load_set_buffer(b);
+            body.assign(b.data(), b.size());
+        }
+    };
+    // a copying reader whose destination is far bigger than any payload (64 KiB and more: wider than the 16-bit length field)
+    struct B4
+    {
+        std::string payload;
+        uint16_t tail = 0;
+        void serialize(igris::archive::binary_serializer_basic &m) const
+        {
+            m.dump(std::string_view(payload.data(), payload.size()));
+            m.dump(tail);
+        }
+        void deserialize(igris::archive::binary_deserializer_basic &m)
+        {
+            static char store[131072];
+            static const size_t caps[] = {65536, 70000, 131072, 65535};
+            igris::archive::writable_buffer wb;
+            wb = igris::buffer(store, caps[((const unsigned char *)m.pointer())[0] % 4]); // (chosen by the low byte of the length on the wire)
+            m.load(wb);
+            payload.assign(wb.data(), wb.size());
+            m.load(tail);
+        }
+    };
+    template <> struct Ref<B3>
+    {
+        static B3 gen(kit::Rng &r, GenCfg &c) { B3 b; b.id = Ref<int32_t>::gen(r, c); b.body = Ref<std::string>::gen(r, c); return b; }
+        static void enc(const B3 &v, std::string &o) { Ref<int32_t>::enc(v.id, o); Ref<std::string>::enc(v.body, o); }
+        static bool eq(const B3 &a, const B3 &b) { return a.body == b.body && a.id == b.id; }
+        static bool is_container() { return true; }
+    };
+    template <> struct Ref<B4>
+    {
+        static B4 gen(kit::Rng &r, GenCfg &c) { B4 b; b.payload = Ref<std::string>::gen(r, c); b.tail = Ref<uint16_t>::gen(r, c); return b; }
+        static void enc(const B4 &v, std::string &o) { Ref<std::string>::enc(v.payload, o); Ref<uint16_t>::enc(v.tail, o); }
+        static bool eq(const B4 &a, const B4 &b) { return a.payload == b.payload && a.tail == b.tail; }
+        static bool is_container() { return true; }
+    };
     template <> struct Ref<B1>
     {
         static B1 gen(kit::Rng &r, GenCfg &c) { B1 b; b.payload = Ref<std::string>::gen(r, c); b.tag = Ref<int32_t>::gen(r, c); return b; }
@@ -284,6 +338,9 @@ namespace c09
         // (new types are appended: the golden file addresses types by index)
         T1(S5, 1, false);
         T1(std::vector<S5>, 2, true);
+        T1(B3, 1, false);
+        T1(std::vector<B3>, 2, true);
+        T1(B4, 1, false);
 #undef T1
         return a;
     }
